@@ -261,8 +261,8 @@ defvjp(
 )
 defvjp(
     anp.linspace,
-    lambda ans, start, stop, num: lambda g: anp.dot(anp.linspace(1.0, 0.0, num), g),
-    lambda ans, start, stop, num: lambda g: anp.dot(anp.linspace(0.0, 1.0, num), g),
+    lambda ans, start, stop, num: lambda g: match_complex(start, anp.dot(anp.linspace(1.0, 0.0, num), g)),
+    lambda ans, start, stop, num: lambda g: match_complex(stop, anp.dot(anp.linspace(0.0, 1.0, num), g)),
 )
 
 defvjp(
